@@ -152,9 +152,11 @@ type world struct {
 	hbTimeout time.Duration
 	corruptAtStart string
 	ghostZones     []string
+	ghostIDs       int
 	fresh            []*ring.Ring
 	lookupNontrivial bool
 	rangesNontrivial bool
+	rywSeq           int
 	observedCommits  int
 	lastObservedAt   time.Duration
 	lastObservedVer  int
